@@ -18,6 +18,7 @@ type MusCase struct {
 	F      [][]int `json:"f"`
 	N      int     `json:"n"`
 	Method string  `json:"method"` // MUS | MUSDeletion | MUSInsertion | MUSMaxSat | UnsatSubset
+	Then   string  `json:"then,omitempty"` // second extraction on the same Problem value
 	Dev    int     `json:"dev"`
 }
 
@@ -26,7 +27,7 @@ type c07 struct{}
 func (c07) ID() string    { return "C07" }
 func (c07) Level() string { return "exploration" }
 func (c07) Rule() string {
-	return "cases = CNF problems read by explain.ParseCNF: T2 (n=2, dirty clauses: empty, repeated literals, tautologies; <=3 clauses), all S3 multisets of <=4 clauses (5 thorough), S4 multisets, and the 'cores' family (unions of two minimal cores that overlap or are disjoint, plus one redundant clause, in several clause orders, with repeated clauses and trivially conflicting units) x method {MUS, MUSDeletion, MUSInsertion, MUSMaxSat} x heuristic choice list (<=1 deviation across the dozens of solver calls of one extraction). Oracle: satisfiable input => error and nil result; unsatisfiable => result is a sub-multiset of the input, unsatisfiable by truth table, and removing any single clause makes it satisfiable; the receiver's Clauses/NbVars/NbClauses are deep-equal to their values before the call. Non-trivial = the input is unsatisfiable and has more clauses than the returned MUS."
+	return "cases = CNF problems read by explain.ParseCNF: T2 (n=2, dirty clauses: empty, repeated literals, tautologies; <=3 clauses), all S3 multisets of <=4 clauses (5 thorough), S4 multisets, and the 'cores' family (unions of two minimal cores that overlap or are disjoint, plus one redundant clause, in several clause orders, with repeated clauses and trivially conflicting units) x method {MUS, MUSDeletion, MUSInsertion, MUSMaxSat} x heuristic choice list (<=1 deviation across the dozens of solver calls of one extraction). Oracle: satisfiable input => error and nil result; unsatisfiable => result is a sub-multiset of the input, unsatisfiable by truth table, and removing any single clause makes it satisfiable; the receiver's Clauses/NbVars/NbClauses are deep-equal to their values before the call, and a second extraction on the same Problem value (every ordered pair of methods, on the cores and conflict-rich families) is judged by the same oracle. Non-trivial = the input is unsatisfiable and has more clauses than the returned MUS."
 }
 func (c07) Assumptions() []string {
 	return []string{"truth-table reference is correct", "problems are built through explain.ParseCNF from a canonical DIMACS rendering with exact header counts"}
@@ -114,6 +115,17 @@ func (c07) Enumerate(tier string, seed int64, yield func(string, core.Case) bool
 		}
 		return true
 	}
+	// the caller's problem is left unchanged: a second extraction on the same value must be right too
+	emitPairs := func(fam string, f [][]int, n int, d int) bool {
+		for _, m1 := range append([]string{"UnsatSubset"}, musMethods[1:]...) {
+			for _, m2 := range musMethods[1:] {
+				if !yield(fam, MusCase{F: f, N: n, Method: m1, Then: m2, Dev: d}) {
+					return false
+				}
+			}
+		}
+		return true
+	}
 	if !famT2(3, 3, func(f [][]int, n int) bool { return emit("T2", f, n) }) {
 		return
 	}
@@ -130,6 +142,21 @@ func (c07) Enumerate(tier string, seed int64, yield func(string, core.Case) bool
 		}
 	}
 	if !famCores(thorough, func(f [][]int, n int) bool { return emit("cores", f, n) }) {
+		return
+	}
+	if !famCores(false, func(f [][]int, n int) bool { return emitPairs("cores-twice", f, n, 0) }) {
+		return
+	}
+	if !famM(seed, tier, func(name string, f [][]int, n int) bool {
+		if n > 12 {
+			return true
+		}
+		// all neighbours of the small unsatisfiable seeds, the other seeds themselves
+		if !strings.HasPrefix(name, "php32") && !strings.HasPrefix(name, "par3both") && !strings.HasPrefix(name, "php43-del") && strings.Contains(name, "-") && !thorough {
+			return true
+		}
+		return emitPairs("M-twice/"+name, f, n, 0)
+	}) {
 		return
 	}
 	for _, s := range seedsM(seed, tier) {
@@ -314,11 +341,37 @@ func (c07) Exec(cc core.Case, r *core.Rec) []core.Failure {
 			r.NonTrivial()
 		}
 		r.Outcome(fmt.Sprintf("%s/unsat/in=%d/out=%d", c.Method, min3(len(c.F)), min3(len(res.Clauses))))
-		for _, f := range judgeSubset(c.Method, c.F, c.N, res, true) {
+		for _, f := range judgeSubset(c.Method, c.F, c.N, res, c.Method != "UnsatSubset") {
 			if strings.HasSuffix(f.Sig, "/not-minimal") && c.Method != "MUSMaxSat" {
 				f.Sig += "/" + musTrigger(c.F)
 			}
 			fs = append(fs, f)
+		}
+		if c.Then == "" || len(fs) > 0 {
+			return fs
+		}
+		// second extraction on the very same Problem value
+		var res2 *explain.Problem
+		var err2 error
+		pn, ab = guard(func() { res2, err2 = runMUS(pb, c.Then) })
+		pre := c.Then + "/second-call-on-same-problem"
+		switch {
+		case pn != "":
+			fs = append(fs, core.Failure{Sig: pre + "/panic@" + lastPanicSite, Detail: "after " + c.Method + ": " + pn})
+		case ab:
+			fs = append(fs, core.Failure{Sig: pre + "/nontermination", Detail: "after " + c.Method})
+		case err2 != nil:
+			fs = append(fs, core.Failure{Sig: pre + "/error-on-unsatisfiable", Detail: "after " + c.Method + ": " + err2.Error()})
+		case res2 == nil:
+			fs = append(fs, core.Failure{Sig: pre + "/nil-result", Detail: "after " + c.Method})
+		default:
+			for _, f := range judgeSubset(pre, c.F, c.N, res2, true) {
+				f.Detail = "after " + c.Method + ": " + f.Detail
+				fs = append(fs, f)
+			}
+			if !deepEqualCNF(pb.Clauses, before) || pb.NbVars != nv || pb.NbClauses != nc {
+				fs = append(fs, core.Failure{Sig: pre + "/caller-problem-modified", Detail: "after " + c.Method})
+			}
 		}
 		return fs
 	})
